@@ -26,6 +26,7 @@ class RecFuture(Future):
         self.cancel_calls = []  # (time, result)
 
     def cancel(self):
+        sched.point()  # a user-supplied delegate's future: its cancel() is an interleaving point
         t = sched.now()
         r = Future.cancel(self)
         self.cancel_calls.append((t, r))
@@ -49,6 +50,7 @@ class ManualExecutor(Executor):
         self.refuse = False
 
     def submit(self, fn, *args, **kwargs):
+        sched.point()  # a user-supplied delegate: its submit()/shutdown() are interleaving points
         if self.refuse or self.shutdowns:
             raise RuntimeError("cannot schedule new futures after shutdown")
         f = RecFuture(self.ev, "%s#%d" % (self.name, len(self.submitted)))
@@ -59,6 +61,7 @@ class ManualExecutor(Executor):
         return f
 
     def shutdown(self, wait=True, **kwargs):
+        sched.point()
         self.shutdowns.append((wait, kwargs))
         self.ev.add("delegate_shutdown", wait=wait, kwargs=kwargs)
 
